@@ -155,18 +155,22 @@ pub(crate) fn get_missing_files<S>(
             .filter_map(|(id, size_hot)| match cold_files.get(id) {
                 Some(size_cold) if size_cold == size_hot => Some(*id),
                 Some(size_cold) => {
-                     warn!("sizes mismatch: type {file_type:?}, id: {id}, size hot: {size_hot}, size cold: {size_cold}. Ignoring...");
+                     warn!("sizes mismatch: type {file_type:?}, id: {id}, size hot: {size_hot}, size cold: {size_cold}. Treating the hot file as missing...");
                     None
                 }
                 None => None,
             })
             .collect();
 
-    let retain = |files: BTreeMap<_, _>| {
+    // The cold part is authoritative: a hot file whose size differs from the cold file is
+    // incomplete and is re-copied from cold; it must never be copied over the cold file.
+    let cold_ids: BTreeSet<_> = cold_files.keys().copied().collect();
+
+    let retain = |files: BTreeMap<_, _>, exclude: &BTreeSet<Id>| {
         let mut retain_size: u64 = 0;
         let only: Vec<_> = files
             .into_iter()
-            .filter(|(id, _)| !common.contains(id) && is_relevant(id))
+            .filter(|(id, _)| !exclude.contains(id) && is_relevant(id))
             .map(|(id, size)| {
                 retain_size += u64::from(size);
                 id
@@ -175,7 +179,7 @@ pub(crate) fn get_missing_files<S>(
         (only, retain_size)
     };
 
-    let (cold_only, cold_only_size) = retain(cold_files);
-    let (hot_only, hot_only_size) = retain(hot_files);
+    let (cold_only, cold_only_size) = retain(cold_files, &common);
+    let (hot_only, hot_only_size) = retain(hot_files, &cold_ids);
     Ok((cold_only, cold_only_size, hot_only, hot_only_size))
 }
